@@ -544,6 +544,8 @@ def split_path(path):
     return [s for s in p.split('::') if s]
 
 def enum_variant(enums, segs):
+    if len(segs) >= 3 and (segs[-3] + '::' + segs[-2]) in enums and segs[-1] in enums[segs[-3] + '::' + segs[-2]]:
+        return segs[-3] + '::' + segs[-2], segs[-1]
     if len(segs) >= 2 and segs[-2] in enums and segs[-1] in enums[segs[-2]]:
         return segs[-2], segs[-1]
     return None, None
